@@ -35,7 +35,7 @@ m = {
     "engines": [
         {"name": "absint", "path": "qsa/interp.py qsa/models.py qsa/models2.py qsa/poly.py qsa/contracts.py qsa/opcases.py",
          "serves_properties": [k for k, v in CLAIMS.items() if v.get("claimed") and "A" in v["engine"]],
-         "kind_free_text": "path-enumerating abstract interpreter with a units-of-measure (rational function) domain; contract table oracle"},
+         "kind_free_text": "path-enumerating abstract interpreter with a units-of-measure (rational function) domain; contract table oracle; every reader case is also evaluated as a repeated call (same state / after a change of the ambient state, compared with a recomputation with nothing memoised), with memoising decorators and process-global memos as real state"},
         {"name": "effects", "path": "qsa/effects.py",
          "serves_properties": [k for k, v in CLAIMS.items() if v.get("claimed") and "B" in v["engine"]],
          "kind_free_text": "write-site inventory, who-may-write ownership, call graph, validate-before-mutate ordering"},
